@@ -71,7 +71,9 @@ fn render(eng: &StorageEngine) -> String {
         }).collect();
         let mut sch: Vec<String> = kg.schema_catalog().persistent_schemas().map(|s| format!("{}:{}", s.name, schema_id(s))).collect();
         sch.sort();
-        Ok(format!("R({})S({})", rules.join(";"), sch.join(";")))
+        let mut ses: Vec<String> = kg.schema_catalog().session_schemas().map(|s| format!("{}:{}", s.name, schema_id(s))).collect();
+        ses.sort();
+        Ok(format!("R({})S({})s({})", rules.join(";"), sch.join(";"), ses.join(";")))
     }).unwrap_or_else(|e| format!("err:render:{e}"))
 }
 
@@ -105,6 +107,10 @@ fn run_op(eng: &mut StorageEngine, t: &[&str]) -> Option<String> {
         ["su", r, s] => ack(eng.register_or_update_schema_in(KG, schema(name_of(r), s.parse().ok()?)), |_| "ok".into()),
         ["sx", r] => ack(eng.remove_schema_in(KG, name_of(r)), |o| format!("ok:{}", o.is_some() as u8)),
         ["dr", n] => ack(eng.drop_relation_in(KG, name_of(n)), |_| "ok".into()),
+        // session (memory-only) schemas: they shadow the persistent ones in `get` / `remove`
+        ["ss", r, s] => ack(eng.register_or_update_session_schema_in(KG, schema(name_of(r), s.parse().ok()?)), |_| "ok".into()),
+        ["sS", r, s] => { let sc = schema(name_of(r), s.parse().ok()?); ack(eng.with_kg_mut(KG, |kg| kg.register_session_schema(sc)), |_| "ok".into()) }
+        ["sc"] => ack(eng.with_kg_mut(KG, |kg| { kg.clear_session_schemas(); Ok(()) }), |_| "ok".into()),
         _ => return None,
     })
 }
@@ -213,6 +219,18 @@ const FRAGS: [&str; 6] = ["", "e", "l", "p100", "p500", "p900"];
 fn rand_op(ctx: &mut Ctx, valid_bias: bool) -> String {
     let n = *ctx.pick(&NAMES);
     let good = [0usize, 1, 2, 6];
+    // a quarter of the operations come from the persistent/session schema interplay on few relations
+    if ctx.chance(1, 4) {
+        let r = *ctx.pick(&["r", "a"]);
+        return match ctx.below(8) {
+            0 | 1 => { ctx.count("op_session_upd"); format!("ss {} {}", r, ctx.pick(&[0usize, 1, 2])) }
+            2 => { ctx.count("op_session_reg"); format!("sS {} {}", r, ctx.pick(&[0usize, 1])) }
+            3 | 4 => { ctx.count("op_srem"); format!("sx {r}") }
+            5 => { ctx.count("op_supd"); format!("su {} {}", r, ctx.pick(&[0usize, 1, 4])) }
+            6 => { ctx.count("op_droprel"); format!("dr {r}") }
+            _ => { ctx.count("op_sreg"); format!("sr {} {}", r, ctx.pick(&[0usize, 2])) }
+        };
+    }
     match ctx.below(if valid_bias { 14 } else { 18 }) {
         0..=3 => { ctx.count("op_reg"); format!("rr {} {}", n, ctx.pick(&good)) }
         4 => { ctx.count("op_reg_other_arity"); format!("rr {} {}", n, ctx.pick(&[3usize, 5])) }
@@ -223,7 +241,11 @@ fn rand_op(ctx: &mut Ctx, valid_bias: bool) -> String {
         9 => { ctx.count("op_dropprefix"); format!("rP {}", ctx.pick(&["a", "b", "ab", "z"])) }
         10 | 11 => { ctx.count("op_sreg"); format!("sr {} {}", ctx.pick(&RELS), ctx.pick(&[0usize, 1, 2, 4])) }
         12 => { ctx.count("op_supd"); format!("su {} {}", ctx.pick(&RELS), ctx.pick(&[0usize, 1, 2, 4])) }
-        13 => { ctx.count("op_srem"); format!("sx {}", ctx.pick(&RELS)) }
+        13 => { match ctx.below(4) {
+            0 | 1 => { ctx.count("op_srem"); format!("sx {}", ctx.pick(&RELS)) }
+            2 => { ctx.count("op_session_upd"); format!("ss {} {}", ctx.pick(&RELS), ctx.pick(&[0usize, 1, 2, 4, 3])) }
+            _ => { if ctx.chance(1, 4) { ctx.count("op_session_clear"); "sc".into() } else { ctx.count("op_session_reg"); format!("sS {} {}", ctx.pick(&RELS), ctx.pick(&[0usize, 1, 2])) } }
+        } }
         14 => { ctx.count("op_droprel"); format!("dr {}", ctx.pick(&["a", "r", "s", "b"])) }
         15 => { ctx.count("op_reg_rejected"); format!("rr {} {}", n, ctx.pick(&[4usize, 7])) }
         16 => { ctx.count("op_sreg_rejected"); format!("sr {} 3", ctx.pick(&RELS)) }
@@ -238,6 +260,9 @@ pub fn gen(ctx: &mut Ctx) -> Vec<String> {
         vec!["rr a 0"], vec!["rr a 0", "rr a 1"], vec!["rr a 0", "rr b 2", "rd a"], vec!["rr a 0", "rc a", "rr a 3"],
         vec!["rr a 0", "rr a 1", "rx a 0"], vec!["rr a 0", "rx a 0"], vec!["rr a 0", "rp a 0 5"], vec!["rr a 0", "rr ab 1", "rP a"],
         vec!["sr r 0"], vec!["sr r 0", "sr s 1"], vec!["sr r 0", "su r 1"], vec!["sr r 0", "sx r"], vec!["rr a 0", "sr r 0", "rr b 1", "sx r"],
+        vec!["su r 0", "ss r 1", "sx r"], vec!["ss r 1", "su r 0", "sx r", "sx r"], vec!["su r 0", "ss r 1", "sx r", "sx r", "ss r 1", "sr r 1"],
+        vec!["sr r 0", "sS r 1", "sS r 2", "sx r", "su r 4"], vec!["su r 0", "ss r 1", "dr r", "dr r"], vec!["ss r 1", "sx r", "sr r 0", "ss r 3", "sc", "sx r"],
+        vec!["rr a 0", "su a 2", "ss a 0", "dr a", "sx a"], vec!["su r 0", "ss r 1", "R", "sx r"], vec!["su r 0", "ss s 1", "sx s", "sx r"],
         vec!["rr a 0", "sr a 2", "dr a"], vec!["sr r 0", "dr r"], vec!["sr r 0", "dr r", "sr s 1"], vec!["rr a 0", "dr a", "rr a 3"],
     ];
     for b in &bases {
